@@ -124,7 +124,8 @@ class RefFit(object):
         fv = np.abs(np.asarray(self.model(p), dtype=float))
         with np.errstate(all="ignore"):
             # truncation error of the central difference + its rounding error (matters for tiny steps)
-            rel = np.where(f1 > 0, f3 * dx**2 / 6.0 / f1 + 4e-16 * (fv + f1 * dx) / (dx * f1), 0.0)
+            # (rounding: of the two function values AND of the two arguments x +- dx, which moves each value by eps |x| f')
+            rel = np.where(f1 > 0, f3 * dx**2 / 6.0 / f1 + 4e-16 * (fv + f1 * np.abs(self.x) + f1 * dx) / (dx * f1), 0.0)
         self._eps_vec = rel
         return float(np.max(rel)) if rel.size else 0.0
 
